@@ -345,18 +345,34 @@ def install_model_locks(obj, sched):
     return found
 
 
+class ClockFault(Exception):
+    """The injected time source fails once."""
+
+
+_clock_fault = {"tid": None}
+
+
+def _faulty_clock():
+    me = getattr(_tls, "tid", "seq")
+    if _clock_fault["tid"] is not None and _clock_fault["tid"] == me:
+        _clock_fault["tid"] = None
+        raise ClockFault("clock source unavailable")
+    return E.v_monotonic()
+
+
 def build(program, sched):
     """Create the component in its initial state (setup runs sequentially, ticks allowed)."""
     global _current_sched
     _current_sched = sched
     clock = E.Clock()
     E.set_clock(clock)
+    _clock_fault["tid"] = None
     comp = program["component"]
     if comp == "breaker":
         c = program["cfg"]
         obj = CircuitBreaker(failure_threshold=c["threshold"], window_s=c["window"] * TAU,
                              recovery_timeout_s=c["recovery"] * TAU, trip_on={KL["T"]},
-                             clock=E.v_monotonic)
+                             clock=_faulty_clock)
     else:
         c = program["cfg"]
         obj = Budget(max_retries=c["max"], window_s=c["window"] * TAU)
@@ -371,6 +387,16 @@ def build(program, sched):
 
 def do_op(obj, op):
     k = op[0]
+    if k == "faulty":
+        # the breaker's injected clock raises at its next read made by this thread
+        _clock_fault["tid"] = getattr(_tls, "tid", "seq")
+        try:
+            return ("faulty",) + tuple(do_op(obj, op[1]))
+        except ClockFault:
+            return ("faulty", "clock-fault")
+        finally:
+            if _clock_fault["tid"] == getattr(_tls, "tid", "seq"):
+                _clock_fault["tid"] = None
     if k == "allow":
         d = obj.allow()
         return ("allow", d.allowed, d.state.value, d.event)
